@@ -298,13 +298,15 @@ SIZES = {
     "small": {"k2": (46, 50), "k3": (11, 13), "k4": (5, 7), "kd": (46, 50), "eyeK": ((38, 42), (54, 58)),
               "bd": ((36, 42), (20, 26), (28, 32), (40, 48)), "s2": (56, 60), "bd2": ((36, 40), (40, 44), (20, 24), (60, 66)),
               "mixq": ((20, 26), (28, 34)), "mixm": ((24, 28), (20, 24), (16, 20), (20, 24), (16, 20)),
-              "k2b": (78, 82), "k2c": (64, 68), "line": (3100, 3500), "perm": (3100, 3500), "house": (3100, 3500),
+              "k2b": (78, 82), "k2c": (64, 68), "s2p": (56, 60), "line": (3100, 3500), "perm": (3100, 3500), "house": (3100, 3500),
               "sparse": (6200, 6600), "plain": (2500, 3500)},
     "large": {"k2": (222, 230), "k3": (32, 34), "k4": (14, 15), "kd": (222, 230), "eyeK": ((180, 190), (250, 260)),
               "bd": ((120, 130), (70, 80), (120, 128), (200, 220)), "s2": (222, 230), "bd2": ((120, 130), (125, 135), (70, 80), (210, 230)),
               "mixq": ((70, 80), (90, 100)), "mixm": ((80, 90), (80, 90), (70, 80), (80, 90), (70, 80)),
-              "k2b": (222, 230), "k2c": (222, 230), "line": (20000, 22000), "perm": (70000, 72000), "house": (40000, 42000),
-              "sparse": (36000, 38000), "plain": (135000, 145000)},
+              # (operators with a TOP-LEVEL Permutation / Sparse leaf stay moderate: `Op.wf` checks `Nodup` of the permutation /
+              #  of the coordinate list, quadratic in the interpreted Lean driver; as Kronecker factors / blocks they are large)
+              "k2b": (105, 110), "k2c": (105, 110), "s2p": (105, 110), "line": (20000, 22000), "perm": (11000, 12000),
+              "house": (40000, 42000), "sparse": None, "plain": (135000, 145000)},
 }
 MODEL_DOMINATED = 4       # a record is "model dominated" when itemsize × MODEL >= 4 × allowance
 
@@ -392,12 +394,13 @@ def zoo(ctx, rnd=0, scale="small"):
     add(("sum", ("kron", d(a), d(b)), ("tridiag", a * b), ("perm", a * b)), "mm")
     a, b = r(sz["k2c"]), r(sz["k2c"])
     add(("prod", ("perm", a * b), ("kron", ("tri", a), d(b)), ("house", a * b)), "mm")
-    a, b = r(sz["s2"]), r(sz["s2"])
+    a, b = r(sz["s2p"]), r(sz["s2p"])
     add(("prod", ("perm", a * b), ("kron", ("tri", a), d(b))), "mm", "inv")
     add(("tridiag", 4096 if big else r(sz["line"])), "mm")
     add(("perm", 4096 if big else r(sz["perm"])), "mm")
     add(("house", 4096 if big else r(sz["house"])), "mm")
-    add(("sparse", 8192 if big else r(sz["sparse"])), "mm")     # stores 6 numbers per row: n ≥ 6000 for n² ≥ 1000 × storage
+    if sz["sparse"] is not None:
+        add(("sparse", 8192 if big else r(sz["sparse"])), "mm")     # stores 6 numbers per row: n ≥ 6000 for n² ≥ 1000 × storage
     # the plain parametrised kinds
     nn = 4096 if big else r(sz["plain"])
     add(("diag", nn), "mm", "rmm", "inv", "diag", "unary", "chol", "plu")
@@ -741,10 +744,26 @@ def lean_models(cases, broken=None):
         rc, out = common.lake_build(["ColaVerif.DriverLib", "ColaVerif.Model.RuleSkeleton"])
         if rc != 0:
             raise RuntimeError("the modules DriverC19.lean imports do not build:\n" + out[-1500:])
-        ans = oracle.run_driver(cases, nproc=min(4, max(1, len(cases) // 8)), driver="DriverC19.lean")
-        bad = [a for a in ans.values() if "rows" not in a]
+        # one driver case per OPERATOR (all its b's at once: `wf` of a large Permutation / Sparse leaf is quadratic)
+        groups, order = {}, []
+        for c in cases:
+            k = json.dumps(c["op"])
+            if k not in groups:
+                groups[k] = []
+                order.append(k)
+            groups[k].append(c)
+        gcases = [{"id": gi, "op": json.loads(k), "bs": sorted({c["b"] for c in groups[k]})} for gi, k in enumerate(order)]
+        gans = oracle.run_driver(gcases, nproc=min(8, max(1, len(gcases) // 4)), driver="DriverC19.lean")
+        bad = [a for a in gans.values() if "rows" not in a]
         if bad:
-            raise RuntimeError(f"DriverC19 answered {len(bad)} of {len(cases)} cases with an error: {json.dumps(bad[0])[:400]}")
+            raise RuntimeError(f"DriverC19 answered {len(bad)} of {len(gcases)} cases with an error: {json.dumps(bad[0])[:400]}")
+        ans = {}
+        for gi, k in enumerate(order):
+            a = gans[gi]
+            per = {x["b"]: x for x in a["per_b"]}
+            for c in groups[k]:
+                ans[c["id"]] = {kk: vv for kk, vv in a.items() if kk not in ("per_b", "id")} | \
+                    {"id": c["id"], "allocs": per[c["b"]]["allocs"], "peak": per[c["b"]]["peak"]}
         return ans
     except Exception as ex:  # noqa: BLE001  (driver does not elaborate, stale object files, time-out, …)
         if broken is not None:
@@ -1277,9 +1296,13 @@ def run(ctx):
             for cname, call in CT.items():
                 if call["flag"] not in z["flags"]:
                     continue
+                if z.get("scale") == "small" and not ctx.thorough and "(b=3)" in cname:
+                    continue            # quick: the small size class ("keep a few small ones") runs b = 1 and b = 16 only …
                 for pres, _f in call["algs"](z):
                     if reported >= MAX_REPORTS:
                         break
+                    if z.get("scale") == "small" and not ctx.thorough and pres == "Auto":
+                        continue        # … and the algorithm omitted / one concrete class; Auto() is run on the large class
                     if (skeleton(e), cname) in failed_small:
                         skipped_siblings += 1
                         continue
